@@ -11,7 +11,7 @@ type RecOS struct {
 	mu     sync.Mutex
 	Calls  []OSCall
 	Before func(call OSCall) // invoked before the call is issued
-	// Fail, if set, is asked before a rename: a non-nil error is returned to litefs instead of renaming
+	// Fail, if set, is asked before a rename or an OpenFile: a non-nil error is returned to litefs instead
 	Fail func(call OSCall) error
 	// After, if set, runs right after a rename was carried out
 	After func(call OSCall)
@@ -56,6 +56,14 @@ func (o *RecOS) Open(op, name string) (*os.File, error) {
 }
 func (o *RecOS) OpenFile(op, name string, flag int, perm os.FileMode) (*os.File, error) {
 	o.rec(op, "openfile", name, "")
+	o.mu.Lock()
+	f := o.Fail
+	o.mu.Unlock()
+	if f != nil { // (Fail callbacks select by Op: the ones written for renames never match an open)
+		if err := f(OSCall{op, "openfile", name, ""}); err != nil {
+			return nil, err
+		}
+	}
 	return os.OpenFile(name, flag, perm)
 }
 func (o *RecOS) ReadDir(op, name string) ([]os.DirEntry, error) {
